@@ -23,7 +23,9 @@ VERIF = HERE.parent.parent
 def load_variants():
     vs = json.loads((HERE / "variants.json").read_text())["variants"]
     from pta.selftest.twins import TWINS
-    return vs + TWINS
+    bp = HERE / "benign.json"
+    benign = json.loads(bp.read_text())["variants"] if bp.exists() else []
+    return vs + TWINS + benign
 
 
 def _sig(toks, i, step):
